@@ -112,6 +112,12 @@ func (m MethodScope) populateImports(t types.Type, imports map[string]*Package) 
 			}
 		}
 
+	case *types.Basic:
+		// unsafe.Pointer is the only basic type which lives in a package.
+		if t.Kind() == types.UnsafePointer {
+			imports["unsafe"] = m.registry.AddImport(types.Unsafe)
+		}
+
 	case *types.Array:
 		m.populateImports(t.Elem(), imports)
 
